@@ -1003,6 +1003,26 @@ def preprocess_idempotence_check(repo, tier, seed):
         if nf:
             funcs.append({'function': f.ident, 'source_sha256': f.sha, 'paths': 1, 'obligations': nf,
                           'discharged': sum(1 for o in obs[-nf:] if o[1]), 'outcomes': {}, 'seconds': 0.0, 'inlined_callees': []})
+    # a DEFAULT written at a reference is converted like one written at the definition: for every kind the parser
+    # converts by the *written* type name and whose text form differs from the value (BOOLEAN: 'TRUE' / 'FALSE'), the
+    # default pass converts it on the resolved type
+    f = cls.methods.get('pre_process_default_value')
+    if f is not None:
+        for kind in ('BOOLEAN', 'BIT STRING', 'OCTET STRING'):
+            ok = False
+            for n in ast.walk(f.node):
+                if isinstance(n, ast.If) and isinstance(n.test, ast.Compare) and ast.unparse(n.test.left) == "resolved_member['type']" \
+                        and any(isinstance(k, ast.Constant) and k.value == kind for k in n.test.comparators):
+                    txt = ast.unparse(ast.Module(body=n.body, type_ignores=[]))
+                    if "member['default'] =" in txt or 'self.pre_process_default_value_' in txt:
+                        ok = True
+            name = '%s/default-converted-on-resolved-type(%s)' % (f.ident, kind)
+            obs.append((name, ok))
+            if not ok:
+                viol.append({'obligation': name, 'function': f.ident, 'verdict': 'data-flow obligation failed',
+                             'solver_output': 'a DEFAULT of a referenced %s type is not converted by pre_process_default_value '
+                                              '(the parser converts only by the type name written at the member)' % kind,
+                             'inputs': None})
     return {'name': 'pre_process idempotence / resolved decisions', 'obligations': len(obs), 'discharged': sum(1 for o in obs if o[1]),
             'violations': viol, 'functions': funcs,
             'undecided': [] if len(obs) >= 3 else [{'function': 'Compiler.pre_process_*', 'kind': 'vacuous', 'reason': 'fewer than 3 obligations'}],
